@@ -521,13 +521,13 @@ static void DecodeAdr(tStrComp const* pArg) {
  * ------------------------------------------------------------------------ */
 
 static void DecodeAdrWithF(tStrComp const* pArg, Boolean AllowF) {
+    /* 110 denotes F (where that is documented) or nothing, never (HL) */
+    if (!as_strcasecmp(pArg->str.p_str, "(HL)")) {
+        AdrMode = ModNone;
+        WrStrErrorPos(ErrNum_InvAddrMode, pArg);
+        return;
+    }
     if ((MomCPU == CPUZ80U) || (MomCPU == CPUZ180) || (MomCPU == CPUZ380)) {
-        /* if 110 denotes F, it cannot denote (HL) */
-        if (!as_strcasecmp(pArg->str.p_str, "(HL)")) {
-            AdrMode = ModNone;
-            WrStrErrorPos(ErrNum_InvAddrMode, pArg);
-            return;
-        }
         if (AllowF && !as_strcasecmp(pArg->str.p_str, "F")) {
             AdrMode = ModReg8;
             AdrPart = 6;
